@@ -309,6 +309,16 @@ pub fn run_lifetimes(
         };
         clock += 1000 * (life.ops.len() as i64 + 5);
         let r = run_child(&job, &dir.join(format!("job{li}.json")))?;
+        // a lifetime that ends in a kill point leaves behind the tree as it was at that point
+        if matches!(life.ops.last(), Some(Op::KillPoint)) {
+            let kp = dir.join(format!("snap{li}")).join("killpoint");
+            if kp.is_dir() {
+                std::fs::remove_dir_all(&root).map_err(|e| format!("killpoint restore: {e}"))?;
+                std::fs::rename(&kp, &root).map_err(|e| format!("killpoint restore: {e}"))?;
+            } else {
+                return Err(format!("kill point of lifetime {li} left no tree"));
+            }
+        }
         out.push(r);
     }
     Ok(out)
